@@ -522,56 +522,81 @@ def _state_key(node, state: str):
     return None
 
 
+def _is_dict_copy(node) -> bool:
+    """a fresh dict with the content of self.__dict__"""
+    if u(node) in ("{**self.__dict__}", "{**vars(self)}"):
+        return True
+    inner = _unwrap(node)
+    return inner is not node and u(inner) in ("self.__dict__", "vars(self)")
+
+
+def _dict_literal(node):
+    """{"k": v, ..} / dict(k=v, ..) -> {key: value expr}, else None"""
+    if isinstance(node, ast.Dict):
+        if not all(isinstance(k, ast.Constant) and isinstance(k.value, str) for k in node.keys):
+            fail(node, "__getstate__ keys must be string literals")
+        return {k.value: v for k, v in zip(node.keys, node.values)}
+    if isinstance(node, ast.Call) and u(node.func) == "dict" and not node.args and all(k.arg for k in node.keywords):
+        return {k.arg: k.value for k in node.keywords}
+    return None
+
+
 def _getstate_table(fn: ast.FunctionDef | None):
-    """-> ("dict", {key: value expr}) for a returned dict literal; ("all", {removed keys}) for a copy of
-    self.__dict__ (possibly with removed keys); fn None = default __getstate__ = ("all", set())"""
+    """-> (kind, {key: value expr}, removed keys): kind "dict" = the state holds exactly the keys of the table;
+    kind "all" = a copy of self.__dict__ (minus `removed`, keys of the table overridden).  fn None = the default
+    __getstate__ = ("all", {}, set())"""
     if fn is None:
-        return "all", set()
+        return "all", {}, set()
     body = body_no_doc(fn)
-    rets = [n for n in ast.walk(fn) if isinstance(n, ast.Return)]
-    if len(rets) != 1 or body[-1] is not rets[0]:
+    if not body or not isinstance(body[-1], ast.Return) or sum(isinstance(n, ast.Return) for n in ast.walk(fn)) != 1:
         fail(fn, "__getstate__ must end with its only return")
-    rv = rets[0].value
-    if isinstance(rv, ast.Dict):
-        # plain statements before the return are allowed only if they are simple local assignments used in the dict
-        loc = {}
-        for st in body[:-1]:
-            if (isinstance(st, (ast.Assign, ast.AnnAssign)) and isinstance((st.targets[0] if isinstance(st, ast.Assign) else st.target), ast.Name)):
-                tgt = st.targets[0] if isinstance(st, ast.Assign) else st.target
-                loc[tgt.id] = st.value
-            else:
+    rv = body[-1].value
+    var, kind, tab, removed, loc = None, None, {}, set(), {}
+    for st in body[:-1]:
+        if isinstance(st, ast.Pass):
+            continue
+        if isinstance(st, (ast.Assign, ast.AnnAssign)) and (isinstance(st, ast.AnnAssign) or len(st.targets) == 1):
+            tgt = st.targets[0] if isinstance(st, ast.Assign) else st.target
+            if st.value is None:
                 fail(st, "unknown statement in __getstate__")
-        tab = {}
-        for k, v in zip(rv.keys, rv.values):
-            if not (isinstance(k, ast.Constant) and isinstance(k.value, str)):
-                fail(rv, "__getstate__ keys must be string literals")
-            if isinstance(v, ast.Name) and v.id in loc:
-                v = loc[v.id]
-            tab[k.value] = v
-        return "dict", tab
-    if isinstance(rv, ast.Name):
-        name = rv.id
-        removed = set()
-        started = False
-        for st in body[:-1]:
-            if isinstance(st, (ast.Assign, ast.AnnAssign)):
-                tgt = st.targets[0] if isinstance(st, ast.Assign) else st.target
-                if isinstance(tgt, ast.Name) and tgt.id == name and u(_unwrap(st.value)) == "self.__dict__" \
-                        and st.value is not _unwrap(st.value):
-                    started = True
+            if isinstance(tgt, ast.Name):
+                d = _dict_literal(st.value)
+                if var is None and d is not None:
+                    var, kind, tab = tgt.id, "dict", dict(d)
                     continue
-            if isinstance(st, ast.Delete) and all(_state_key(t, name) for t in st.targets):
-                removed |= {_state_key(t, name) for t in st.targets}
-                continue
-            if (isinstance(st, ast.Expr) and isinstance(st.value, ast.Call) and u(st.value.func) == f"{name}.pop"
-                    and st.value.args and isinstance(st.value.args[0], ast.Constant)):
-                removed.add(st.value.args[0].value)
+                if var is None and _is_dict_copy(st.value):
+                    var, kind = tgt.id, "all"
+                    continue
+                if tgt.id != var:
+                    loc[tgt.id] = st.value          # a local helper value
+                    continue
+            k = _state_key(tgt, var) if var else None
+            if k is not None:
+                tab[k] = st.value
+                removed.discard(k)
                 continue
             fail(st, "unknown statement in __getstate__")
-        if not started:
-            fail(fn, "__getstate__ must return a dict literal or a copy of self.__dict__")
-        return "all", removed
-    fail(rv, "__getstate__ must return a dict literal or a copy of self.__dict__")
+        if var and isinstance(st, ast.Delete) and all(_state_key(t, var) for t in st.targets):
+            for t in st.targets:
+                removed.add(_state_key(t, var))
+                tab.pop(_state_key(t, var), None)
+            continue
+        if (var and isinstance(st, ast.Expr) and isinstance(st.value, ast.Call) and u(st.value.func) == f"{var}.pop"
+                and st.value.args and isinstance(st.value.args[0], ast.Constant) and isinstance(st.value.args[0].value, str)):
+            removed.add(st.value.args[0].value)
+            tab.pop(st.value.args[0].value, None)
+            continue
+        fail(st, "unknown statement in __getstate__")
+    if isinstance(rv, ast.Name) and rv.id == var:
+        pass
+    elif var is None and _dict_literal(rv) is not None:
+        kind, tab = "dict", dict(_dict_literal(rv))
+    elif var is None and _is_dict_copy(rv):
+        kind = "all"
+    else:
+        fail(rv, "__getstate__ must return a dict literal or a copy of self.__dict__")
+    tab = {k: (loc[v.id] if isinstance(v, ast.Name) and v.id in loc else v) for k, v in tab.items()}
+    return kind, tab, removed
 
 
 def _rebuilt(val, state: str, gtab, attr: str):
@@ -590,7 +615,9 @@ def _rebuilt(val, state: str, gtab, attr: str):
         return None
     if u(e.func) != "ModelFunction":
         fail(val, "elements rebuilt through a constructor the model does not know")
-    if gtab[0] != "dict" or k not in gtab[1]:
+    if k not in gtab[1]:
+        if gtab[0] == "all" and k not in gtab[2]:
+            fail(val, "model functions rebuilt from something that is not a definition")
         return "missing"
     src = gtab[1][k]
     if isinstance(src, ast.Call) and u(src.func) in ("list", "tuple") and len(src.args) == 1:
@@ -622,33 +649,45 @@ def _hook_row(cls: ast.ClassDef):
     restored: dict = {}
 
     def from_state(attr: str, key: str):
-        if gtab[0] == "all":
-            return "AWhole" if key == attr and key not in gtab[1] else "AMissing"
-        if key not in gtab[1]:
-            return "AMissing"
-        src = _unwrap(gtab[1][key])
-        if _self_attr(src) == attr:
-            return "AWhole"
-        fail(gtab[1][key], f"{cls.name}.__getstate__: key {key!r} restored into {attr!r} is not taken from self.{attr}")
+        kind, tab, removed = gtab
+        if key in tab:
+            if _self_attr(_unwrap(tab[key])) == attr:
+                return "AWhole"
+            fail(tab[key], f"{cls.name}.__getstate__: key {key!r} restored into {attr!r} is not taken from self.{attr}")
+        if kind == "all" and key not in removed:
+            return "AWhole" if key == attr else "AMissing"
+        return "AMissing"
+
+    def all_keys():
+        """default __setstate__ / self.__dict__.update(state): every key of the state becomes the attribute of that name"""
+        for a in init:
+            if a not in restored:
+                restored[a] = from_state(a, a)
 
     if ss is None:
-        # default __setstate__: self.__dict__.update(state)
-        keys = (set(gtab[1]) if gtab[0] == "dict" else None)
-        for a in init:
-            restored[a] = from_state(a, a) if (keys is None or a in keys) else "AMissing"
+        all_keys()
     else:
         ps = params_of(ss)
         if len(ps) != 2:
             fail(ss, "__setstate__(self, state)")
         state = ps[1]
         for st in body_no_doc(ss):
+            if isinstance(st, ast.Pass):
+                continue
             if isinstance(st, (ast.Assign, ast.AnnAssign)):
                 tgt = st.targets[0] if isinstance(st, ast.Assign) and len(st.targets) == 1 else getattr(st, "target", None)
+                if tgt is not None and u(tgt) == "self.__dict__" and u(_unwrap(st.value)) == state:
+                    all_keys()
+                    continue
                 a = _self_attr(tgt) if tgt is not None else None
-                if a is None:
+                if a is None or st.value is None:
                     fail(st, "unknown statement in __setstate__")
                 val = st.value
-                k = _state_key(_unwrap(val), state)
+                inner = _unwrap(val)
+                k = _state_key(inner, state)
+                if (k is None and isinstance(inner, ast.Call) and u(inner.func) == f"{state}.get" and inner.args
+                        and isinstance(inner.args[0], ast.Constant) and isinstance(inner.args[0].value, str)):
+                    k = inner.args[0].value
                 if k is not None:
                     restored[a] = from_state(a, k)
                     continue
@@ -667,13 +706,13 @@ def _hook_row(cls: ast.ClassDef):
                     continue
                 fail(st, "attribute set by __setstate__ to something __init__ does not set it to")
             elif (isinstance(st, ast.Expr) and isinstance(st.value, ast.Call)
-                  and u(st.value.func) == "self.__dict__.update" and [u(x) for x in st.value.args] == [state]
-                  and not st.value.keywords):
-                for a in init:
-                    if a not in restored:
-                        r = from_state(a, a) if (gtab[0] == "all" or a in gtab[1]) else None
-                        if r is not None:
-                            restored[a] = r
+                  and u(st.value.func) in ("self.__dict__.update", "vars(self).update")
+                  and [u(x) for x in st.value.args] == [state] and not st.value.keywords):
+                all_keys()
+            elif (isinstance(st, ast.For) and isinstance(st.target, ast.Tuple) and len(st.target.elts) == 2
+                  and u(st.iter) == f"{state}.items()" and len(st.body) == 1 and not st.orelse
+                  and u(st.body[0]) == f"setattr(self, {u(st.target.elts[0])}, {u(st.target.elts[1])})"):
+                all_keys()
             else:
                 fail(st, "unknown statement in __setstate__")
     return cls.name, [(a, restored.get(a, "AMissing")) for a in sorted(init)]
